@@ -52,9 +52,12 @@ structure Field where
   oneofValue    : Option Str := none
   flatten       : Bool := false
   flattenPrefix : Str := []
+  jsonOverride  : Option Str := none   -- explicit `json_name`; none = protoc's derivation
 deriving Repr, Inhabited
 
-def Field.json (f : Field) : Str := jsonName f.name
+/-- the field's JSON name: the explicit `json_name` when one is written, protoc's derivation
+from the proto name otherwise (`protoreflect.FieldDescriptor.JSONName`). -/
+def Field.json (f : Field) : Str := f.jsonOverride.getD (jsonName f.name)
 
 structure OneofDecl where
   name          : Str
